@@ -429,12 +429,14 @@ def removeFully (cache : Path) (key : Bytes) : Prog (Res Unit) := do
     let contentGone : Prog (Res Unit) := match mo with
       | some m => removeHash cache m.sri
       | none => pure (.ok ())
-    match ← contentGone with
-    | .error e => pure (.error e)
-    | .ok () =>
+    let dropBucket : Prog (Res Unit) := do
       match ← call (.unlink (bucketPath cfg cache key)) with
       | .err e => pure (.error (.io e))
       | _ => pure (.ok ())
+    match ← contentGone with
+    | .error (.io .notFound) => dropBucket      -- content already gone: the entry still has to go
+    | .error e => pure (.error e)
+    | .ok () => dropBucket
 
 def removeEach : List (Path × Bool) → Prog (Res Unit)
   | [] => pure (.ok ())
